@@ -127,6 +127,7 @@ def _work(vs):
 def seeded_values(seed, tier):
     rng = random.Random(seed + 8)
     vals = ["", "x", "x" * 1024, "é" * 700, "{5}", "{5+}", "{0}", "{12+}\r\nabc", "a\r\nLOGOUT", "a\"\r\nLOGOUT\r\n",
+            "cafe\u0301", "caf\u00e9", "\u212b", "\u2126x", "\u1112\u1161\u11ab", "A\u030a\u0327",   # canonically equivalent but different strings: nothing may normalise them
             "\\", "\\\\", '"', '""', "a\\\"b", "tab\there", "☃" * 50, "{5}x", "x{5}", "line1\nline2", "\0", "a\0b",
             " lead", "trail ", "{", "}", "{+}", "{5+", "\r", "\n", "\r\n", "name with spaces", "ü", "a" * 65536]
     # long values: a hostile symbol placed in filler text, at lengths around the usual thresholds (RFC 5804's
